@@ -248,7 +248,12 @@ func (r *ClientPeerRef) Send(ctx context.Context, msg []byte) (_ *signaling_rpc.
 
 			// Stream with remote was re-opened.
 			if sessionSeqno == nil || *sessionSeqno != *tkr.open {
-				txed = false
+				// If our message is still in the out slot the session routine
+				// will transmit it again in the new session: keep waiting for
+				// its ack instead of waiting for the slot to become empty.
+				if tkr.out != sessMsg {
+					txed = false
+				}
 				sessionSeqno = tkr.open
 			}
 
